@@ -124,6 +124,43 @@ STRENGTHENED = {
     "C19_r5_m1": "access records collected through a handler on the root logger (logconfig_dict)",
     "C20_r5_m1": "ids in the upper half of the 32-bit id space, as number and numeric string (renamed injectively for TLC)",
     "C20_r5_m2": "timeout = 0 variants on the fake kernel and in real forked processes",
+    # round 6
+    "C01_r6_m1": "Content-Length digits of other scripts and Transfer-Encoding letters that case-fold to ASCII, as UTF-8",
+    "C01_r6_m2": "(request lines with junk after the version, incl. a bare LF, added alongside)",
+    "C02_r6_m1": "Connection header folded after the colon, under permit_obsolete_folding",
+    "C02_r6_m2": "file-like objects whose read() returns fewer bytes than asked for; --no-sendfile",
+    "C03_r6_m1": "(post_fork hook that raises: scenario present since round 2; BootTrace)",
+    "C04_r6_m1": "eventlet / gevent / gthread with every connection slot taken and one more connection accepted at TERM",
+    "C04_r6_m2": "--reload (file-watching thread in the workers) with TERM and QUIT",
+    "C05_r6_m1": "clients that leave (FIN / RST) in the middle of a response of several writes; servers started with --daemon",
+    "C05_r6_m2": "decided through C01 run under permit_obsolete_folding: forbidden bytes on the continuation of a folded field",
+    "C06_r6_m1": "streams around the buffer caps: trailer blocks beyond the cap with limit_request_field_size = 0",
+    "C06_r6_m2": "streams around the buffer caps: head-less request followed by more pipelined bytes than the header-block cap, every cut",
+    "C07_r6_m1": "body programs on real servers of the four classes, slow segments, default socket timeout set by the application",
+    "C07_r6_m2": "a share of the runs repeated in an interpreter started with -O",
+    "C08_r6_m1": "HeaderMap.tla dimension tls (the listener terminates TLS: scheme https unless a permitted forwarder says otherwise), product T",
+    "C09_r6_m1": "relaxed request-parsing settings for the response checks; values shaped like obsolete line folding",
+    "C09_r6_m2": "ConcHeadTrace: responses produced at the same time by the handler threads of a real server (8 clients, 4 ms of computing per request)",
+    "C10_r6_m1": "configuration file named relative to the start directory with --chdir elsewhere, then HUP",
+    "C10_r6_m2": "line-level injection (a worker dies at every source line of murder_workers / manage_workers) after a HUP; clause MasterExitedUnasked",
+    "C11_r6_m1": "simulated kernel: the aborted worker dumps core (wait status 134); clause MasterExitedUnasked for C11",
+    "C11_r6_m2": "scenario healthy_inherited: listening socket handed over in blocking mode (fd://N)",
+    "C12_r6_m1": "over-long fields whose name the default header_map drops",
+    "C12_r6_m2": "limit_request_line = 0 with request lines beyond 8190 bytes",
+    "C13_r6_m1": "two real gthread workers on a listener inherited in blocking mode, a parked connection on each",
+    "C13_r6_m2": "the simulated executor honours shutdown(cancel_futures=True); clause QueuedRequestDroppedAtStop",
+    "C14_r6_m1": "histories 15 / 16: HUP to the old master while the upgrade is pending, then the old master leaves",
+    "C14_r6_m2": "worker turnover (--max-requests) during a pending upgrade; observation staffed, clause MasterLeftWithoutWorkers",
+    "C15_r6_m1": "form mounth: SCRIPT_NAME given by the header of a permitted forwarder (loopback / unix-socket peer)",
+    "C15_r6_m2": "form absempty: absolute-form targets with an empty path",
+    "C17_r6_m1": "an unprivileged user creates a master's pid file over an unreadable one that names a live process",
+    "C17_r6_m2": "two real masters; the configuration of one is edited to the other's pid file, then HUP",
+    "C18_r6_m1": "real mode mstop: the master is stopped (SIGSTOP) while both workers reach the limit",
+    "C18_r6_m2": "real mode bodiless alternates 304 answers with the WSGI exc_info pattern",
+    "C19_r6_m1": "Authorization values that are not base64 (bytes beyond ASCII, control bytes, other schemes)",
+    "C19_r6_m2": "statsd configured but unreachable at start-up",
+    "C20_r6_m1": "Privs.tla master kind rootsplit (real gid 0, effective gid G); the change applies to the tree before fix 0582067, which rewrote the same lines",
+    "C20_r6_m2": "settings from ./gunicorn.conf.py of the start directory with chdir elsewhere, then HUP",
 }
 
 
